@@ -144,9 +144,26 @@ def check_clean(ck, mod, label, rule="R-C20-CLEAN"):
     where = relpath("%s:%d" % (f.file, f.line))
     if prims:
         # forwarded-arguments shape
-        esc = ir.rets_reachable_avoiding(f, [c.id for c in prims])
+        # (a return taken only when size == 0 has nothing to wipe: edges on which the size parameter itself was compared equal to 0 are left out)
+        zero_edges = []
+        for bb in f.blocks:
+            t_ = f.term(bb.id)
+            if t_.op == "br" and t_.get("cond") and t_.ops[0][0] == "i":
+                C_ = f.inst(t_.ops[0])
+                if C_ is not None and C_.op == "icmp" and C_.get("pred") in ("eq", "ne"):
+                    x_, y_ = tuple(C_.ops[0]), tuple(C_.ops[1])
+                    if x_[0] != "c":
+                        sv_, casts_ = ir.strip_int(f, x_)
+                        x_ = tuple(sv_) if all(k_[0] == "zext" for k_ in casts_) else x_
+                    if y_[0] != "c":
+                        sv_, casts_ = ir.strip_int(f, y_)
+                        y_ = tuple(sv_) if all(k_[0] == "zext" for k_ in casts_) else y_
+                    if (x_ == ("a", 1) and y_[0] == "c" and int(y_[1]) == 0) or (y_ == ("a", 1) and x_[0] == "c" and int(x_[1]) == 0):
+                        succ_ = t_.get("succ")
+                        zero_edges.append((bb.id, succ_[0] if C_.get("pred") == "eq" else succ_[1]))
+        esc = ir.rets_reachable_avoiding(f, [c.id for c in prims], pruned_edges=zero_edges)
         ck.ob(not esc, rule, "tinyjambu_clean", "must-call[%s]" % label,
-              "every path calls the non-elidable zeroing primitive %s" % prims[0].callee,
+              "every path with size != 0 calls the non-elidable zeroing primitive %s" % prims[0].callee,
               "a path returns without calling the zeroing primitive", where=where,
               path=ir.path_desc(f, esc[0][1]) if esc else None)
         for c in prims:
